@@ -3,7 +3,7 @@
   spellings it lists, any blank/comment/discard trivia between forms, nesting within the
   reader's limit) is accepted, and the tree returned has exactly the rendered content.
 
-  The token-level cases come from `CompleteIdent`, `CompleteNum`, `CompleteStrChar`; the
+  The token-level cases come from `CompleteIdent`, `CompleteNum`, `CompleteFloat`, `CompleteStrChar`; the
   structural cases (collections, tagged elements, discards, trivia) are proved in
   `CompleteAux1` (content versus structural equality and the duplicate check),
   `CompleteAux2` (dispatch on delimiters, the element loops) and `CompleteAux3` (one lemma
@@ -12,6 +12,7 @@
 import Edn.Spec.Renders
 import Edn.Proofs.CompleteIdent
 import Edn.Proofs.CompleteNum
+import Edn.Proofs.CompleteFloat
 import Edn.Proofs.CompleteStrChar
 import Edn.Proofs.Trivia
 import Edn.Proofs.ReaderInv
@@ -40,6 +41,8 @@ theorem complete_v (cfg : Cfg) (opts : Opts) (hreg : opts.registry = none) :
   | _, _, _, .int _ sg ds neg hs hd hr, d, _ => reads_int cfg opts d sg ds neg hs hd hr
   | _, _, _, .bigOverflow _ sg ds neg hs hd hr, d, _ => reads_bigOverflow cfg opts d sg ds neg hs hd hr
   | _, _, _, .bigN _ sg ds neg hs hd, d, _ => reads_bigN cfg opts d sg ds neg hs hd
+  | _, _, _, .float _ tok h, d, _ => reads_float cfg opts d tok h
+  | _, _, _, .bigdec _ sg body neg hs hb hnosign, d, _ => reads_bigdec cfg opts d sg body neg hs hb hnosign
   | _, _, _, .str _ sp dn h hne, d, _ => reads_str cfg opts d sp dn h hne
   | _, _, _, .char _ body cp h hcp, d, _ => reads_char cfg opts d body cp h hcp
   | _, _, _, .kw _ tok ns nm h hc hsp hne hsl, d, _ => reads_kw cfg opts d tok ns nm h hc hsp hne hsl
